@@ -430,6 +430,72 @@ def valgrind_sample(ctx, r, count):
                             "assert p.returncode == 0, p.returncode\n"))
 
 
+# ------------------------------------------------------------------ corrupted (not truncated) files: robustness only
+
+def field_positions(kind, data):
+    """byte positions of the header (prefix, version, length, JSON text) and of every length / count field"""
+    pre, ver, text, hend = F.split_header(data)
+    pos = {p: 'header (prefix, version, length, dictionary text)' for p in range(len(pre) + 6 + len(text) + 1)}
+    if kind == 'qm':
+        p = hend
+        while p + 8 <= len(data):
+            mg = data[p:p + 4]
+            for q in range(p, p + 8):
+                pos[q] = 'section magic or length'
+            ln = int.from_bytes(data[p + 4:p + 8], 'little')
+            if mg == b'NEIG':
+                for q in range(p + 8, min(p + 16, len(data))):
+                    pos[q] = 'NEIG count'
+            p += 8 + ln
+    else:
+        hv = json.loads(text)
+        n, dsz = hv['shape'][0], np.dtype(hv['dtype']).itemsize
+        for v in range(n):
+            for q in range(hend + dsz + v * (4 + dsz), hend + dsz + v * (4 + dsz) + 4):
+                pos[q] = 'neighbourhood start'
+        i = data.rfind(b'VARS')
+        if ver[0] >= 2 and hv['variables'] and i >= hend:
+            for q in range(i, i + 8):
+                pos[q] = 'section magic or length'
+    return pos
+
+
+def corrupt_sweep(ctx, r, budget_s):
+    """single-byte corruptions of headers and length fields of BQM / QM files.  OUTSIDE the truncation theorem and
+    outside the model: the only thing checked is that the interpreter survives (exception or some model)."""
+    import time
+    t0 = time.time()
+    nfiles = 0
+    while time.time() - t0 < budget_s:
+        kind = r.choice(['qm', 'bqm'])
+        spec = F.SPECS[kind](r, False)
+        m = F.build(spec)
+        kw = '' if kind == 'qm' else f'version={r.choice([1, 2])}'
+        data = m.to_file(**(dict(version=int(kw[-1])) if kw else {})).read()
+        pos = field_positions(kind, data)
+        blobs, meta = [], []
+        for p, region in pos.items():
+            for name, f in (('zeroed', lambda b: 0), ('set to 0xff', lambda b: 255), ('low bit flipped', lambda b: b ^ 1),
+                            ('high bit flipped', lambda b: b ^ 128)):
+                nb = f(data[p])
+                if nb != data[p]:
+                    blobs.append(data[:p] + bytes([nb]) + data[p + 1:]); meta.append((p, region, name))
+        res = F.sweep_blobs(F.cls_of(kind).from_file, blobs)
+        nfiles += 1
+        for (p, region, name), rc, blob in zip(meta, res, blobs):
+            ctx.case(('corrupt', kind, blob), nontrivial=True)
+            ctx.tick(f'corrupt {kind}:{region}:{rc.split(":")[0] if rc.startswith("CRASH") else rc}')
+            if rc is None or rc.startswith('CRASH') or rc == 'HANG':
+                src = (F.PRELUDE + F.emit(spec) + f"data = bytearray(m.to_file({kw}).read())\ndata[{p}] = {blob[p]}\n"
+                       f"try:\n    {F.CLS[kind]}.from_file(bytes(data))\nexcept Exception:\n    pass\n")
+                ctx.fail('crash', f'{F.cls_of(kind).__name__}.from_file (corrupted file, robustness)', f'{kind}: one byte changed in {region}',
+                         f'byte {p} of {len(data)} ({region}) {name}: the interpreter did not survive the load: {rc}',
+                         repro=("import subprocess, sys\nsrc = " + repr(src) +
+                                "\np = subprocess.run([sys.executable, '-c', src])\nassert p.returncode == 0, p.returncode\n"),
+                         detail=dict(source=F.emit(spec), options=kw, position=p, value=blob[p]))
+    ctx.notes.append(f'corruption sweep (robustness, outside the truncation theorem): {nfiles} files in {time.time() - t0:.0f}s')
+
+
 def run(ctx):
     r = ctx.rng
     ctx.rule = ('random BQM (v1 and v2) / QM / CQM / DQM files and expression members; a case = one (file, prefix length) pair, every '
@@ -448,3 +514,4 @@ def run(ctx):
     raw_loader_cases(ctx, r, ctx.scale(120, 1500))
     if not ctx.quick:
         valgrind_sample(ctx, r, 3)
+        corrupt_sweep(ctx, r, 120)
